@@ -55,7 +55,11 @@ Walk(slots, ord, k, acc) ==
     IF k > Len(ord) \/ acc.stop THEN acc
     ELSE LET i == ord[k]
              r == Select(acc, slots[i])
-         IN IF r.n = NONE THEN [acc EXCEPT !.stop = TRUE]
+         IN IF r.n = NONE
+            THEN \* a slot whose M the user fixed and that cannot be served blocks the whole request, whatever was served
+                 \* before it (compute_n_m: "blocks the request (even if other N,M were feasible)"); a slot with a free M
+                 \* that finds nothing more to serve just ends the walk
+                 [acc EXCEPT !.stop = TRUE, !.refused = (slots[i].m # NONE)]
             ELSE Walk(slots, ord, k + 1, [acc EXCEPT !.busy = @ \cup SlotRange(r.n, r.m), !.rem = @ - r.m,
                                                      !.sel = @ @@ (i :> r)])
 
@@ -77,8 +81,9 @@ Outcome(oc, t) ==
     IN IF t.pre THEN [st |-> "preblocked", nm |-> <<>>]
        ELSE IF allM /\ NbWl(t) > ChannelsIn(t.slots, Pcm(t)) THEN [st |-> "NOT_ENOUGH_RESERVED_SPECTRUM", nm |-> <<>>]
        ELSE LET fin == Walk(t.slots, Order(t.slots), 1,
-                            [busy |-> BusyOn(oc, t.path), rem |-> need, sel |-> <<>>, stop |-> FALSE, pcm |-> Pcm(t)])
-            IN IF fin.rem > 0 THEN [st |-> "NO_SPECTRUM", nm |-> <<>>]
+                            [busy |-> BusyOn(oc, t.path), rem |-> need, sel |-> <<>>, stop |-> FALSE, refused |-> FALSE,
+                             pcm |-> Pcm(t)])
+            IN IF fin.rem > 0 \/ fin.refused THEN [st |-> "NO_SPECTRUM", nm |-> <<>>]
                ELSE [st |-> "served", nm |-> Pack(fin.sel, 1, Len(t.slots))]
 
 RangesOf(nm) == UNION {SlotRange(nm[j].n, nm[j].m) : j \in 1..Len(nm)}
